@@ -15,6 +15,7 @@ import Mwp.Lemmas.RelDefs
 import Mwp.Spec.Syntax
 import Mwp.Spec.CalculusInf
 import Mwp.Model.Cli
+import Mwp.Spec.Exec
 import Mwp.WireResult
 import Mwp.Spec.BoundText
 open Lean Mwp Mwp.Wire
@@ -581,6 +582,40 @@ def cliOp (j : Json) : R Json := do
       ("fin", Json.bool p.fin), ("strict", Json.bool p.strict), ("use_cpp", Json.bool p.useCpp),
       ("save", match p.save with | some s => Json.str s | none => Json.null)]))
 
+
+-- ---------------------------------------------------------------- C03
+def jPolyN (q : Spec.PolyN) : Json := Json.str (" + ".intercalate (q.map fun m => if m.isEmpty then "1" else "*".intercalate m))
+
+/-- C03 predicate: every reported bound (one list of (variable, max, weak, poly) per valid choice)
+    must be respected, in the sense of `Spec.Shape`, by the exact final values along every path. -/
+def checkC03 (j : Json) : R Json := do
+  let n ← nodeOfJson (← field j "ast")
+  match Spec.desugarFunc n with
+  | none => pure (ok (Json.mkObj [("supported", Json.bool false)]))
+  | some cmd =>
+    let paths ← (← fArr j "paths").mapM natListOf
+    let bounds ← (← fArr j "bounds").mapM fun b => do
+      let choice ← natListOf (← field b "choice")
+      let entries ← (← fArr b "bound").mapM fun e => do
+        match ← arrOf e with
+        | [v, x, y, z] => pure (← strOf v, ← strListOf x, ← strListOf y, ← strListOf z)
+        | _ => throw "bad bound entry"
+      pure (choice, entries)
+    let mut executed := 0
+    for path in paths do
+      match Spec.exec 200 cmd path [] with
+      | none => pure ()
+      | some (_, store) =>
+        executed := executed + 1
+        for (choice, entries) in bounds do
+          for (v, x, y, z) in entries do
+            let q := Spec.Store.get store v
+            if !Spec.Shape q x y z then
+              return viol "execution-exceeds-bound" [("variable", Json.str v), ("choice", jList jNat choice),
+                ("path", jList jNat path), ("final_value", jPolyN q),
+                ("bound", Json.arr #[jStrs x, jStrs y, jStrs z])]
+    pure (ok (Json.mkObj [("supported", Json.bool true), ("executed_paths", jNat executed)]))
+
 end Ops
 
 def dispatch (op : String) (j : Json) : R Json :=
@@ -611,6 +646,7 @@ def dispatch (op : String) (j : Json) : R Json :=
   | "check.C08" => Ops.checkC08 j
   | "model.cli" => Ops.cliOp j
   | "model.result_roundtrip" => Mwp.Wire.resultRoundtripOp j
+  | "check.C03" => Ops.checkC03 j
   | "check.C10" => Ops.checkC10 j
   | "check.C10eq" => Ops.checkRelEq j
   | "model.choices" => Ops.choicesModel j
